@@ -451,7 +451,8 @@ fn gen_bits(rng: &mut Rng, max_len: usize) -> (Vec<bool>, String) {
     let len = match rng.below(10) {
         0 => 0,
         1 => 1,
-        2 => *rng.pick(&[62usize, 63, 64, 65, 126, 127, 128, 129, 4095, 4096, 4097]),
+        // word (63 bits) and block (23 words = 1449 bits) boundaries of the compressed vectors
+        2 => *rng.pick(&[62usize, 63, 64, 65, 126, 127, 128, 129, 4095, 4096, 4097, 315, 1448, 1449, 1450, 2898, 11592]),
         3..=6 => rng.usize(600),
         _ => rng.usize(max_len),
     };
